@@ -62,21 +62,22 @@ pub fn check(cfg: &Config, ops: &[Op]) -> Vec<(String, String)> {
     }
     let n = e.proto.n_msgs();
     let mut hash_checked = false;
-    for (k, op) in ops.iter().enumerate() {
+    for op in ops.iter() {
         e.step(op);
-        if k + 1 == 2 * n {
-            // handshake done on both sides: same hash, both finished
+        // once, when the model says both sides have processed all n messages (and are still handshake objects)
+        if !hash_checked && e.abs.iter().all(|a| a.pos == n && a.phase == crate::exec::APhase::Hs) {
             let (gi, gr) = (e.getters(Side::I), e.getters(Side::R));
-            if gi.phase == 0 && gr.phase == 0 {
-                hash_checked = true;
-                if gi.hash != gr.hash {
-                    v.push(("the two sides report different handshake hashes".into(), cfg.name.clone()));
-                }
-                if !(gi.finished && gr.finished) {
-                    v.push(("handshake not finished after the pattern's last message".into(), cfg.name.clone()));
-                }
+            hash_checked = true;
+            if gi.hash != gr.hash {
+                v.push(("the two sides report different handshake hashes".into(), cfg.name.clone()));
+            }
+            if !(gi.finished && gr.finished) {
+                v.push(("handshake not finished after the pattern's last message".into(), cfg.name.clone()));
             }
         }
+    }
+    if !hash_checked && !e.desync {
+        v.push(("handshake not finished after the pattern's last message".into(), cfg.name.clone()));
     }
     let _ = hash_checked;
     for m in sess::filter(&e, &CATS) {
@@ -182,6 +183,22 @@ pub fn run(tier: Tier) -> i32 {
         }
     });
     ctx.count("direction_string_cases", djobs.len() as u64);
+    // 3b. honest sessions in which a party first makes a local mistake (an output buffer one byte short, a
+    // zero-length payload buffer) and then repeats the step correctly: messages are still exchanged
+    // unmodified, so the session must still complete and agree
+    let suite = patterns::all_protos_for_suite(DhAlg::X25519, CipherAlg::AesGcm, HashAlg::Blake2s);
+    let rjobs: Vec<(&Proto, usize)> = suite.iter().flat_map(|p| (0..p.n_msgs()).map(move |k| (p, k))).collect();
+    rjobs.par_iter().for_each(|(p, k)| {
+        if let Some(cfg) = cfg_for(p, 5, Eph2::Scripted) {
+            use crate::exec::{Cap, Msg};
+            let mut ops = sess::full_session_ops(p, &[6, 6, 6, 6], Mode::TT, &[Side::I, Side::R], &[3, 3]);
+            let w = sess::writer(*k);
+            ops.insert(2 * k + 1, Op::HsRead { side: w.peer(), msg: Msg::Last(w), cap: Cap::Exact(0) });
+            ops.insert(2 * k, Op::HsWrite { side: w, plen: 6, cap: Cap::NeedPlus(-1) });
+            eval(&cfg, &ops);
+        }
+    });
+    ctx.count("local_retry_cases", rjobs.len() as u64);
     // 4. labelled sample: OS randomness (not enumerable)
     base.par_iter().for_each(|p| {
         if let Some(cfg) = cfg_for(p, 4, Eph2::Os) {
